@@ -1,0 +1,8 @@
+//go:build !verif
+
+package payload
+
+// Maximum inventory hashes number is limited to 500.
+const (
+	MaxHashesCount = 500
+)
